@@ -2,6 +2,7 @@
    the facts regenerated from the source on every run (Gen.DecompFacts, translator/decomp_facts.py):
      dmet_checks   the chain of raising index checks of DMETProblemDecomposition.__init__ (nested fragment_atoms)
      oniom_copies  whether distribute_atoms copies self.geometry for a selected_atoms=None fragment
+     optimizer_checks_initial  whether _default_optimizer returns the initial chemical potential when |cost| < tol there
    Each proof is [exact (<lemma> <fact> eq_refl ...)]: it type-checks only if the regenerated chain contains the four
    tests / the copy is made.  On a tree where a check is missing or the list is aliased this file stops compiling
    (the as-is variants and their refutation witnesses stay in C15.v). *)
@@ -39,3 +40,14 @@ Theorem C15_source_distribute_atoms_unchanged :
     distribute_src oniom_copies sys frs = Ok d -> fst d = sys /\ length (snd d) = length frs.
 Proof. exact (fun R => distribute_src_unchanged R oniom_copies eq_refl). Qed.
 Print Assumptions C15_source_distribute_atoms_unchanged.
+
+(* the default optimizer of the CURRENT source: when the fragment electron numbers already sum to the total (within tol)
+   at the initial chemical potential, that value is returned for every behaviour of the external root search -- in
+   particular for a cost that does not depend on the chemical potential (single fragment; empty baths), where the
+   secant method raises.  (Last in this file: a tree without the guard stops here, the statements above still check.) *)
+Theorem C15_source_dmet_optimizer_accepts_solved_start :
+  forall (K : Type) (small : K -> bool) newton cost mu0,
+    small (cost mu0) = true ->
+    default_optimizer_src optimizer_checks_initial small newton cost mu0 = Ok mu0.
+Proof. exact (fun K => optimizer_accepts_solved_start K optimizer_checks_initial eq_refl). Qed.
+Print Assumptions C15_source_dmet_optimizer_accepts_solved_start.
